@@ -106,13 +106,17 @@ def getargs(function, n = 0):
 
 def getcallarg(function, args, kwargs):
     """
-    gets the first arg of a function
+    gets the first arg of a function: the first positional argument, else the keyword named as the first parameter, 
+    else the default of that parameter (None if the function has no parameters or no default)
     """
     if len(args):
-        arg = args[0]
-    else:
-        arg = kwargs[getargs(function)[0]]
-    return arg
+        return args[0]
+    names = getargs(function)
+    if len(names) == 0:
+        return None
+    if names[0] in kwargs:
+        return kwargs[names[0]]
+    return argspec_defaults(function).get(names[0])
 
 
 def getcallargs(function, *args, **kwargs):
